@@ -1,4 +1,5 @@
 """mirsym: symbolic executor for the e57 crate's MIR (see DESIGN.md §4.3)."""
+import os
 import re
 import time
 
@@ -72,7 +73,7 @@ class Path:
         self.queries += 1
         return r
 
-    heavy_timeout = 300
+    heavy_timeout = int(os.environ.get("MIRSYM_HEAVY", "300"))
 
     def decide(self, cond):
         """Branch on a Bool term; returns the python bool taken on this path."""
@@ -86,8 +87,13 @@ class Path:
             self.decisions.append(b)
             self.assume(cond if b else z3.Not(cond))
             return b
+        t0 = time.time()
+        if os.environ.get("MIRSYM_VERBOSE") == "2":
+            print("    [branch] %s" % cond.sexpr()[:300].replace("\n", " "), flush=True)
         st = self.check(cond)
         sf = self.check(z3.Not(cond))
+        if os.environ.get("MIRSYM_VERBOSE") and time.time() - t0 > 5:
+            print("    [slow branch %.1fs %s/%s] %s" % (time.time() - t0, st, sf, cond.sexpr()[:400].replace("\n", " ")), flush=True)
         if st == z3.unknown or sf == z3.unknown:
             raise Inconclusive("solver returned unknown on a branch condition")
         if st == z3.unsat and sf == z3.unsat:
@@ -168,6 +174,24 @@ class Interp:
                 while "{" not in hdr and j < line + 6:
                     hdr += " " + text.split("\n")[j]
                     j += 1
+                lines = text.split("\n")
+                if "derive(" in lines[line - 1]:
+                    # derived impl: trait = the word at the recorded column, type = the next struct/enum declared below
+                    mcol = re.search(r"<impl at [^:]+:\d+:(\d+):", name)
+                    col = int(mcol.group(1)) - 1 if mcol else 0
+                    mw = re.match(r"\w+", lines[line - 1][col:])
+                    mt = None
+                    for k in range(line, min(line + 12, len(lines))):
+                        mt = re.match(r"\s*(?:pub(?:\([a-z]+\))? )?(?:struct|enum) (\w+)", lines[k])
+                        if mt:
+                            break
+                    if not (mw and mt):
+                        continue
+                    trait, ty = mw.group(0), mt.group(1)
+                    meth = name.split(">::", 1)[1] if ">::" in name else name
+                    self.methods[(ty, trait, meth)] = name
+                    self.methods.setdefault((ty, None, meth), name)
+                    continue
                 m = re.match(r"\s*impl(?:<.*?>)?\s+(?:(.*?)\s+for\s+)?([A-Za-z_][\w:]*)", _strip_generics(hdr))
                 if not m:
                     continue
@@ -285,11 +309,100 @@ class Interp:
                 holder = {"v": v}
                 self.call_fn(name, [Ref(Loc(holder, "v"))])
 
+    # ------------------------------------------------------------------ diamond merging
+    def _succ_chain(self, fr, bb, depth=5):
+        """static successor chain through goto / assert-success edges"""
+        out = []
+        for _ in range(depth):
+            out.append(bb)
+            tt = parser.parse_terminator(fr.fn.blocks[bb][1])
+            if tt[0] == "goto":
+                bb = tt[1]
+            elif tt[0] == "assert":
+                bb = tt[4]
+            else:
+                break
+        return out
+
+    def _run_chain(self, fr, start, join, base):
+        """execute the pure blocks from `start` up to (excluding) `join` on a copy of the locals; None if not pure"""
+        fr.locals = dict(base)
+        bb = start
+        for _ in range(6):
+            if bb == join:
+                return fr.locals
+            stmts, term = fr.fn.blocks[bb]
+            for s in stmts:
+                st = parser.parse_statement(s)
+                if st[0] == "nop":
+                    continue
+                if st[0] != "assign" or st[1][0] != "local" or st[2][0] not in ("use", "bin", "un", "cast"):
+                    return None
+                if st[2][0] == "bin" and st[2][1] in ("Div", "Rem"):
+                    return None
+                try:
+                    fr.locals[st[1][1]] = self.eval_rvalue(fr, st[2], st[1])
+                except (Inconclusive, KeyError):
+                    return None
+            tt = parser.parse_terminator(term)
+            if tt[0] == "goto":
+                bb = tt[1]
+            elif tt[0] == "assert":
+                try:
+                    c = z3.simplify(self.eval_operand(fr, tt[1]))
+                except (Inconclusive, KeyError):
+                    return None
+                passing = z3.is_true(c) if tt[2] else z3.is_false(c)
+                if not passing:
+                    return None          # the assertion is not trivially true on this side: fork normally
+                bb = tt[4]
+            else:
+                return None
+        return None
+
+    def try_merge(self, fr, cond, bb_true, bb_false):
+        """diamond merging: if both sides are short chains of pure scalar assignments meeting at a common block,
+        execute both and merge the locals with ite instead of forking the path"""
+        ca, cb = self._succ_chain(fr, bb_true), self._succ_chain(fr, bb_false)
+        join = next((x for x in ca if x in cb), None)
+        if join is None:
+            return None
+        base = fr.locals
+        la = self._run_chain(fr, bb_true, join, base)
+        lb = self._run_chain(fr, bb_false, join, base) if la is not None else None
+        if la is None or lb is None:
+            fr.locals = base
+            return None
+        merged = dict(base)
+        for k in set(la) | set(lb):
+            va, vb = la.get(k, base.get(k)), lb.get(k, base.get(k))
+            if va is vb:
+                merged[k] = va
+                continue
+            if isinstance(va, Agg) and isinstance(vb, Agg) and va.kind == "tuple" and len(va.fields) == len(vb.fields) and \
+                    all(hasattr(x, "sort") and hasattr(y, "sort") and x.sort() == y.sort() for x, y in zip(va.fields, vb.fields)):
+                merged[k] = Agg("tuple", [z3.If(cond, x, y) for x, y in zip(va.fields, vb.fields)])
+                continue
+            if va is None or vb is None or not (hasattr(va, "sort") and hasattr(vb, "sort")) or va.sort() != vb.sort():
+                fr.locals = base
+                return None
+            merged[k] = z3.If(cond, va, vb)
+        fr.locals = merged
+        return join
+
     def exec_switch(self, fr, t):
         _, op, cases, otherwise = t
         v = self.eval_operand(fr, op)
         if isinstance(v, bool):
             v = z3.BoolVal(v)
+        if z3.is_bool(v) and len(cases) == 1 and otherwise is not None:
+            sv = z3.simplify(v)
+            if not z3.is_true(sv) and not z3.is_false(sv):
+                cv, target = cases[0]
+                bb_true, bb_false = (otherwise, target) if cv == 0 else (target, otherwise)
+                j = self.try_merge(fr, sv, bb_true, bb_false)
+                if j is not None:
+                    return j
         if z3.is_bool(v):
             # bool switch: cases on 0 / 1
             for cv, target in cases:
@@ -376,6 +489,11 @@ class Interp:
         if k in ("copy", "move"):
             v = self.place_loc(fr, op[1]).get()
             return deep_copy(v) if k == "copy" else v
+        mp = re.search(r"::(promoted\[\d+\])$", op[1])
+        if mp:
+            key = fr.fn.name + "::" + mp.group(1)
+            if key in self.consts:
+                return self.eval_const_body(self.consts[key])
         return self.eval_const(op[1])
 
     def eval_const(self, text):
